@@ -49,7 +49,7 @@ def _mk() -> List[Entry]:
     add("rubikscube-2", "RubiksCube", lambda time_limit=7, **k: E.RubiksCube(generator=RCGen(cube_size=2, num_scrambles_on_reset=3), time_limit=time_limit, **k), time_limit=7)
     add("slidingtile-3", "SlidingTilePuzzle", lambda time_limit=15, **k: E.SlidingTilePuzzle(generator=STGen(grid_size=3, num_random_moves=20), time_limit=time_limit, **k), time_limit=15)
     add("sudoku-default", "Sudoku", lambda **k: E.Sudoku(**k))
-    add("binpack-toy", "BinPack", lambda **k: E.BinPack(generator=BPToy(), obs_num_ems=10, **k))
+    add("binpack-toy", "BinPack", lambda **k: E.BinPack(generator=BPToy(), obs_num_ems=10, **k), constant_generator=True)
     add("binpack-random", "BinPack", lambda **k: E.BinPack(generator=BPGen(max_num_items=8, max_num_ems=20), obs_num_ems=8, **k), heavy=True)
     add("flatpack-2x2", "FlatPack", lambda **k: E.FlatPack(generator=FPGen(num_row_blocks=2, num_col_blocks=2), **k))
     add("jobshop-3x3", "JobShop", lambda **k: E.JobShop(generator=JSGen(num_jobs=3, num_machines=3, max_num_ops=3, max_op_duration=3), **k))
@@ -70,7 +70,7 @@ def _mk() -> List[Entry]:
     add("pacman", "PacMan", lambda time_limit=12, **k: E.PacMan(time_limit=time_limit, **k), time_limit=12)
     add("robotwarehouse-small", "RobotWarehouse", lambda time_limit=9, **k: E.RobotWarehouse(generator=RWGen(shelf_rows=1, shelf_columns=3, column_height=2, num_agents=2, sensor_range=1, request_queue_size=2), time_limit=time_limit, **k), time_limit=9, multi=True, trunc_ok=True)
     add("snake-5x6", "Snake", lambda time_limit=10, **k: E.Snake(num_rows=5, num_cols=6, time_limit=time_limit, **k), time_limit=10)
-    add("sokoban-simple", "Sokoban", lambda time_limit=9, **k: E.Sokoban(generator=SKGen(), time_limit=time_limit, **k), time_limit=9)
+    add("sokoban-simple", "Sokoban", lambda time_limit=9, **k: E.Sokoban(generator=SKGen(), time_limit=time_limit, **k), time_limit=9, constant_generator=True)
     add("sokoban-toy", "Sokoban", lambda time_limit=6, **k: E.Sokoban(generator=SKToy(), time_limit=time_limit, **k), time_limit=6, constant_generator=True)
     add("tsp-6", "TSP", lambda **k: E.TSP(generator=TSGen(num_cities=6), **k))
     return out
